@@ -18,7 +18,7 @@ import sys
 from prov.model import ProvDocument, NamespaceManager
 from prov.identifier import Namespace, QualifiedName, Identifier
 
-PREFIXES = ["ex", "ex_1", "dn", "foo"]
+PREFIXES = ["ex", "ex_1", "dn", "foo", "xsd"]
 URIS = ["http://a/", "http://a/b/", "http://c/"]
 LOCALS = ["x", "b/y"]
 
@@ -33,7 +33,7 @@ def op_space():
     for p in PREFIXES[:2] + [""]:
         for u in URIS:
             ops.append(("vqn-qn", p, u, LOCALS[0]))
-    for p in PREFIXES[:3]:
+    for p in PREFIXES:
         ops.append(("vqn-text", p + ":" + LOCALS[0]))
     ops.append(("vqn-text", LOCALS[0]))
     for u in URIS:
@@ -125,6 +125,23 @@ def search(tier, seed):
             v = run_history(hist)
             if v:
                 record(failures, hist, v)
+    # exhaustive family over a tiny alphabet (2 prefixes, 2 URIs, one local name) on one manager, length <= 5:
+    # alias prefixes, re-registration after resolution, QualifiedName vs text forms of the same name
+    tiny = []
+    for p in ("ex", "foo"):
+        for u in URIS[:1] + URIS[2:]:
+            tiny.append(("add", p, u))
+            tiny.append(("vqn-qn", p, u, "x"))
+        tiny.append(("vqn-text", p + ":x"))
+    for who in (["D"] if tier == "quick" else ["D", "B"]):
+        for L in (3, 4, 5):
+            for seq in itertools.product(tiny, repeat=L):
+                hist = tuple((who, o) for o in seq)
+                evaluations += 1
+                v = run_history(hist)
+                if v:
+                    record(failures, hist, v)
+    budget += evaluations
     lengths = [3] if tier == "quick" else [3, 4]
     while evaluations < budget:
         L = rnd.choice(lengths)
